@@ -99,7 +99,7 @@ func compile(s *Source) (out string) {
 
 var current atomic.Pointer[core.Sched]
 var tokQuantum atomic.Int64 // park at every n-th token of a goroutine (0 = never)
-var tokCount sync.Map        // goroutine label -> *int64 (wave mode only)
+var tokCount sync.Map       // goroutine label -> *int64 (wave mode only)
 var installOnce sync.Once
 
 func install() {
